@@ -93,6 +93,12 @@ def count_multiples(lo, hi, k):
     return (hi - 1) // k - (lo - 1) // k
 
 
+def ctx_profiles(ctx):
+    """profiles whose harness was built for this run (props/C13.py: PROFILES)"""
+    from props import C13
+    return getattr(C13, "PROFILES", ["release"])
+
+
 def run_more(ctx):
     rng = ctx.rng
     years = [-32768, -32767, -10000, -5001, -5000, -4999, -1000, -100, -99, -2, -1, 0, 1, 2, 9, 10, 99, 100, 999, 1000, 1444,
@@ -352,6 +358,7 @@ def run_more(ctx):
             cases.append("date.add\t%d\t%d\t%d\t%d" % (y, m, d, n)); meta.append((y, m, d, n, D))
     impl, _ = ctx.correspond("add_boundary", cases, nontrivial=lambda c, i: i.startswith("ok") or i == "PANIC")
     base = len(impl) - len(cases)
+    ab_cases, ab_impl = list(cases), list(impl[base:])
     ucases, umeta = [], []
     for k, (y, m, d, n, D) in enumerate(meta):
         o = impl[base + k]
@@ -447,36 +454,61 @@ def run_more(ctx):
     for y in sorted(cy):
         sweeps.append(("corrupt", "dt.sweep_fast\tcorrupt\t%d\t%d" % (y, y), None))
     rng.shuffle(sweeps)
-    cases = [s[1] for s in sweeps]
-    ctx.count("sweep_cases", len(cases))
-    impl, _ = ctx.correspond("sweeps", cases, nontrivial=lambda c, i: " bad=0" in i, model=False)
-    base = len(impl) - len(cases)
+    ctx.count("sweep_cases", len(sweeps))
     tot = {}
-    for k, (what, c, expect) in enumerate(sweeps):
-        o = impl[base + k]
-        f = dict(x.split("=", 1) for x in o.split(" ") if "=" in x)
-        if "bad" not in f:
-            ctx.fail("sweep-" + what, "%s did not finish: %s" % (c.replace("\t", " "), o), [c], [o])
-            continue
-        tot[what] = tot.get(what, 0) + int(f["n"])
-        if f["bad"] != "0":
-            ctx.fail("sweep-" + what, "%s: %s checks failed, first: %s" % (c.replace("\t", " "), f["bad"], f["first"]), [c], [o], "bad=0")
-            continue
-        acc = int(f["acc"])
-        if what in ("dates", "digits") and acc != expect:
-            ctx.fail("sweep-" + what, "%s accepted %d dates, expected %d" % (c.replace("\t", " "), acc, expect), [c], [o], "acc=%d" % expect)
-        if what == "dates":
-            a, b = (int(x) for x in f["wide_lt10"].split("/"))
-            if a not in (0, b):
-                ctx.fail("sweep-dates", "%s: zero-padded hours < 10 read back in %d of %d cases (all or none expected)" % (c.replace("\t", " "), b - a, b), [c], [o])
-        if what == "bin":
-            lo, hi = expect
-            e_acc = max(0, min(hi, MAX_BIN) - max(lo, 0)) + count_multiples(max(lo, MIN_BIN), min(hi, 0), YEAR_SPAN)
-            e_h = count_multiples(max(lo, 4901 * YEAR_SPAN), min(hi, MAX_BIN), 24)
-            e_dh = max(0, min(hi, MAX_BIN) - max(lo, 6800 * YEAR_SPAN)) + sum(1 for s in (5001 * YEAR_SPAN, 4999 * YEAR_SPAN) if lo <= s < hi)
-            if (acc, int(f["acch"]), int(f["accdh"])) != (e_acc, e_h, e_dh):
-                ctx.fail("sweep-bin", "%s: accepted %d / heuristic %s / DateHour heuristic %s, closed form %d / %d / %d" % (c.replace("\t", " "), acc, f["acch"], f["accdh"], e_acc, e_h, e_dh), [c], [o])
-        if what == "corrupt" and acc == 0:
-            ctx.fail("sweep-corrupt", "%s accepted nothing" % c.replace("\t", " "), [c], [o])
+
+    def judge(stream, sweeps, profile):
+        cases = [s[1] for s in sweeps]
+        impl, _ = ctx.correspond(stream, cases, nontrivial=lambda c, i: " bad=0" in i, model=False, profile=profile)
+        base = len(impl) - len(cases)
+        for k, (what, c, expect) in enumerate(sweeps):
+            o = impl[base + k]
+            f = dict(x.split("=", 1) for x in o.split(" ") if "=" in x)
+            tag = c.replace("\t", " ") + (" [%s build]" % profile if profile != "release" else "")
+            if "bad" not in f:
+                ctx.fail("sweep-" + what, "%s did not finish: %s" % (tag, o), [c], [o])
+                continue
+            tot[what] = tot.get(what, 0) + int(f["n"])
+            if f["bad"] != "0":
+                ctx.fail("sweep-" + what, "%s: %s checks failed, first: %s" % (tag, f["bad"], f["first"]), [c], [o], "bad=0")
+                continue
+            acc = int(f["acc"])
+            if what in ("dates", "digits") and acc != expect:
+                ctx.fail("sweep-" + what, "%s accepted %d dates, expected %d" % (tag, acc, expect), [c], [o], "acc=%d" % expect)
+            if what == "dates":
+                a, b = (int(x) for x in f["wide_lt10"].split("/"))
+                if a not in (0, b):
+                    ctx.fail("sweep-dates", "%s: zero-padded hours < 10 read back in %d of %d cases (all or none expected)" % (tag, b - a, b), [c], [o])
+            if what == "bin":
+                lo, hi = expect
+                e_acc = max(0, min(hi, MAX_BIN) - max(lo, 0)) + count_multiples(max(lo, MIN_BIN), min(hi, 0), YEAR_SPAN)
+                e_h = count_multiples(max(lo, 4901 * YEAR_SPAN), min(hi, MAX_BIN), 24)
+                e_dh = max(0, min(hi, MAX_BIN) - max(lo, 6800 * YEAR_SPAN)) + sum(1 for s in (5001 * YEAR_SPAN, 4999 * YEAR_SPAN) if lo <= s < hi)
+                if (acc, int(f["acch"]), int(f["accdh"])) != (e_acc, e_h, e_dh):
+                    ctx.fail("sweep-bin", "%s: accepted %d / heuristic %s / DateHour heuristic %s, closed form %d / %d / %d" % (tag, acc, f["acch"], f["accdh"], e_acc, e_h, e_dh), [c], [o])
+            if what == "corrupt" and acc == 0:
+                ctx.fail("sweep-corrupt", "%s accepted nothing" % tag, [c], [o])
+
+    judge("sweeps", sweeps, "release")
+
+    # the same checks on a small slice with the debug build (overflow checks and debug_assert! armed), and the boundary
+    # arithmetic: whatever is not a documented panic must not depend on the build profile
+    if "debug" in ctx_profiles(ctx):
+        dbg = []
+        for y in (-32768, -5001, -5000, -1, 0, 1, 1444, 32767):
+            dbg.append(("dates", "dt.sweep_dates\t%d\t%d\t1" % (y, y), 365))
+        for lo in (-2 ** 31, 2 ** 31 - (1 << 15), MIN_BIN - (1 << 14), -(1 << 14), MAX_BIN - (1 << 14), 5001 * YEAR_SPAN - 100):
+            dbg.append(("bin", "dt.sweep_bin\t%d\t%d" % (lo, 1 << 15), (lo, lo + (1 << 15))))
+        for lo in (0, 1440, 9990):
+            dbg.append(("digits", "dt.sweep_fast\tdigits\t%d\t%d" % (lo, lo + 9), 10 * 827))
+        for y in (0, 1444, 9999):
+            dbg.append(("corrupt", "dt.sweep_fast\tcorrupt\t%d\t%d" % (y, y), None))
+        judge("sweeps_debug", dbg, "debug")
+        bcases = ab_cases
+        impl_d, _ = ctx.correspond("add_boundary_debug", bcases, nontrivial=lambda c, i: True, model=False, profile="debug")
+        based = len(impl_d) - len(bcases)
+        for k, c in enumerate(bcases):
+            if impl_d[based + k] != ab_impl[k]:
+                ctx.fail("profile-dependent", "%s gives %s in the debug build, %s in the release build" % (c.replace("\t", " "), impl_d[based + k], ab_impl[k]), [c], [impl_d[based + k]], ab_impl[k])
     for what, n in tot.items():
         ctx.count("sweep_checks_" + what, n)
